@@ -675,6 +675,9 @@ def replay_destructure(rp):
         "a, b = (i for i in (1, 2))\nr = (a, b)\n", "a, *b, c = [1, 2]\nr = (a, b, c)\n",
         "a, (b, c) = 1, iter([2, 3])\nr = (a, b, c)\n", "i, (j, k) = 0, {1: 'one', 0: 'zero'}\nr = (i, j, k)\n", "(a, (b, *c)), d = (1, (q for q in (2, 3, 4))), 5\nr = (a, b, c, d)\n",
         "[u, [v, [w, x]]] = 1, iter([2, iter([3, 4])])\nr = (u, v, w, x)\n",
+        "def outer():\n    a, b = 1, 2\n    def g():\n        return a, b\n    a, b = b, a\n    return g()\nr = outer()\n",
+        "w = 0\ndef f():\n    return w\nw, t = 5, f()\nx, y = 1, 2\nx, y = y, x\nr = (w, t, x, y)\n",
+        "class K:\n    p, q = 1, 2\n    p, q = q, p\nr = (K.p, K.q)\n",
     ]
     for s in srcs:
         rep = RU.replay_source(s, "same-globals", names=["r"])
